@@ -109,6 +109,8 @@ def search(rep, rel, q, pi, hi):
            "common subgraphs are *induced*: bonds between mapped atoms must be present (with equal order) on both sides", node=il)
     for ex in [n for n in walk_local(il) if isinstance(n, (ast.Continue, ast.Break, ast.Return))]:
         gs = [t for t, s in guards_of(pm, ex, il) if s]
+        # "not already skipped by an earlier duplicate test" is not a condition of its own
+        gs = [t for t in gs if not ((mm0 := pmatch("$k not in $s", t)) is not None and pfind(f"{mm0['s']}.add({mm0['k']})", il))]
         ok = False
         if isinstance(ex, ast.Continue) and inv_name:
             if len(gs) == 1:
@@ -189,7 +191,7 @@ def mcs_mol(rep, rel):
     ok = len(up) == 1 and norm(up[0].args[0]) == f"{s.var}.mapping" and any(call_name(t) == "is_isomorphic" and sn for t, sn in guards_of(pm, up[0], fi.node) if isinstance(t, ast.Call))
     rep.ob("O12.1", "R2", fi, ok, up[0] if up else "combined.update", "the G1->G2 mapping of an isomorphic pair is recorded as is")
     mark = [c for c in walk_local(fi.node) if used and isinstance(c, ast.Call) and pmatch(f"{used}.add({key})", c) is not None]
-    rep.ob("O12.1", "R2", fi, len(mark) == 1 and guards_of(pm, mark[0], fi.node) == guards_of(pm, up[0], fi.node) if up and mark else False,
+    rep.ob("O12.1", "R2", fi, len(mark) == 1 and [(norm(t), s_) for t, s_ in guards_of(pm, mark[0], fi.node)] == [(norm(t), s_) for t, s_ in guards_of(pm, up[0], fi.node)] if up and mark else False,
            mark[0] if mark else "used2.add", "a matched G2 component is not used again")
 
 
